@@ -1629,6 +1629,7 @@ mod vtrace {
     }
     #[cfg(not(oxidd_verif))]
     mod imp {
+        #[allow(dead_code)]
         pub fn install() {}
         pub fn begin(_seed: u64, _permille: u64) {}
         pub fn set_rendezvous(_permille: u64) {}
@@ -2268,6 +2269,10 @@ fn main() {
                     },
                     std::sync::atomic::Ordering::Relaxed,
                 );
+                // package ALLOC: alloc=1 logs the slot allocator events of the whole case (hooks build only)
+                if case.param("alloc") == Some("1") {
+                    atrace::begin();
+                }
                 match case.param("kind").unwrap_or("bdd") {
                     "bdd" => run_bool::<oxidd::bdd::BDDFunction>(case, oxidd::bdd::new_manager(cap, cache, threads), out),
                     "bcdd" => run_bool::<oxidd::bcdd::BCDDFunction>(case, oxidd::bcdd::new_manager(cap, cache, threads), out),
@@ -2279,6 +2284,7 @@ fn main() {
                     "tdd" => tv::run_tdd(case, out),
                     k => panic!("unknown kind {k}"),
                 }
+                atrace::end().into_iter().for_each(&mut *out);
             });
         }
         m => panic!("unknown mode {m}"),
